@@ -442,6 +442,10 @@ func (key *PrivateKey) ECDSA() (*ecdsa.PrivateKey, error) {
 			return nil, fmt.Errorf("Unsupported elliptic curve %s", ttlv.EnumStr(tkey.RecommendedCurve))
 		}
 
+		if tkey.D.Sign() <= 0 || tkey.D.Cmp(curve.Params().N) >= 0 {
+			return nil, errors.New("Invalid private key")
+		}
+
 		rkey := &ecdsa.PrivateKey{
 			PublicKey: ecdsa.PublicKey{
 				Curve: curve,
